@@ -134,6 +134,19 @@ func init() {
 				pull("S0", 1), pull("S0", 10), tick("lease+"),
 			},
 		}
-		return []*hist.Scenario{a, b, c, e, f, g, h}
+		// a LATER same-key message whose retention ends before an earlier one's (the
+		// earlier one was revived by a seek with fresh retention): the next publish
+		// must queue behind the earlier, still outstanding one
+		i := &hist.Scenario{
+			ID: "C05/later-message-expires-first", Prop: "C05", Depth: d(tier, 5, 6), Drain: true,
+			Cfg: model.Cfg{Topics: []string{"T0"}, Subs: []model.SubCfg{
+				{Name: "S0", Topic: "T0", Ordered: true, Retention: 40 * time.Minute},
+			}},
+			Prelude: []model.Op{pubN("T0", "K1", "K1"), pull("S0", 1), ack("S0", "oldest"), tick("+30m"), seekT("S0", "before-all"), tick("ret+")},
+			Alphabet: []model.Op{
+				pub1("T0", "K1", 0), pull("S0", 1), pull("S0", 10), ack("S0", "oldest"), tick("lease+"),
+			},
+		}
+		return []*hist.Scenario{a, b, c, e, f, g, h, i}
 	}
 }
